@@ -54,7 +54,7 @@ func (fv *FuncVC) val(v ssa.Value) Term {
 }
 
 func (fv *FuncVC) globalAddr(g *ssa.Global) Term {
-	name := "@g." + mangle(fv.W.pkgShort(g.Pkg.Pkg)) + "." + mangle(g.Name())
+	name := "adr.g." + mangle(fv.W.pkgShort(g.Pkg.Pkg)) + "." + mangle(g.Name())
 	if !fv.declared[name] {
 		t := fv.declare(name, SInt)
 		fv.assume(lt(intLit(0), t))
@@ -64,13 +64,13 @@ func (fv *FuncVC) globalAddr(g *ssa.Global) Term {
 }
 
 func (fv *FuncVC) funcConst(f *ssa.Function) Term {
-	name := "@fn." + mangle(fv.W.FuncKey(f))
+	name := "fnc." + mangle(fv.W.FuncKey(f))
 	if !fv.declared[name] {
 		t := fv.declare(name, SInt)
 		fv.assume(lt(intLit(0), t))
 		// distinct from other function constants
 		for d := range fv.declared {
-			if strings.HasPrefix(d, "@fn.") && d != name {
+			if strings.HasPrefix(d, "fnc.") && d != name {
 				fv.assume(not(eq(t, Term{S: d, Sort: SInt})))
 			}
 		}
@@ -121,7 +121,7 @@ func (fv *FuncVC) stringLit(s string) Term {
 		fv.stringLits[s] = t
 		return t
 	}
-	p := fv.freshConst("@strlit", SInt)
+	p := fv.freshConst("adr.strlit", SInt)
 	fv.assume(lt(intLit(0), p))
 	m := fv.heap(fv.entry, "M", SInt)
 	for i := 0; i < len(s) && i < 64; i++ {
@@ -281,7 +281,7 @@ func (fv *FuncVC) doAlloc(a *ssa.Alloc) {
 		fv.cur.cells[a] = z
 		return
 	}
-	addr := fv.freshConst("@"+a.Name(), SInt)
+	addr := fv.freshConst("adr."+a.Name(), SInt)
 	fv.assume(lt(intLit(0), addr))
 	sz := fv.TE.Sizeof(et)
 	al := fv.TE.Alignof(et)
@@ -385,7 +385,7 @@ func (fv *FuncVC) nilCheck(addr ssa.Value, a Term, pos token.Pos) {
 	if _, ok := addr.(*ssa.IndexAddr); ok {
 		return
 	}
-	fv.oblige("nilderef", addr.Name(), not(eq(a, intLit(0))), pos, "pointer dereference of non-nil pointer")
+	fv.oblige("nilderef", fv.srcName(addr), not(eq(a, intLit(0))), pos, "pointer dereference of non-nil pointer")
 }
 
 func (fv *FuncVC) load(addr ssa.Value, pos token.Pos) Term {
@@ -525,7 +525,7 @@ func (fv *FuncVC) fieldAddr(x *ssa.FieldAddr) {
 		switch x.X.(type) {
 		case *ssa.Global, *ssa.Alloc, *ssa.FieldAddr, *ssa.IndexAddr:
 		default:
-			fv.oblige("nilderef", x.X.Name(), not(eq(base, intLit(0))), x.Pos(), "field access through non-nil pointer")
+			fv.oblige("nilderef", fv.srcName(x.X), not(eq(base, intLit(0))), x.Pos(), "field access through non-nil pointer")
 		}
 	}
 	st := x.X.Type().Underlying().(*types.Pointer).Elem()
@@ -760,6 +760,19 @@ func (fv *FuncVC) binop(x *ssa.BinOp) {
 		}
 		fv.uf2(x, "bvand64", a, b)
 	case token.OR:
+		// a | (y << k) with a < 2^k  (big-endian composition): a + y*2^k
+		if k, ok := shlConst(x.Y); ok {
+			if u := staticUB(x.X); u != nil && u.Cmp(pow2(k)) < 0 {
+				fv.define(x, add(a, b))
+				return
+			}
+		}
+		if k, ok := shlConst(x.X); ok {
+			if u := staticUB(x.Y); u != nil && u.Cmp(pow2(k)) < 0 {
+				fv.define(x, add(a, b))
+				return
+			}
+		}
 		if c, ok := constOf(x.Y); ok {
 			if k, ok := isPow2(c); ok {
 				bit := mk(SInt, "mod", mk(SInt, "div", a, bigLit(pow2(k))), intLit(2))
@@ -804,12 +817,76 @@ func (fv *FuncVC) binop(x *ssa.BinOp) {
 	}
 }
 
+// shlConst reports whether v is x << k for a constant k.
+func shlConst(v ssa.Value) (uint, bool) {
+	b, ok := v.(*ssa.BinOp)
+	if !ok || b.Op != token.SHL {
+		return 0, false
+	}
+	c, ok := constOf(b.Y)
+	if !ok || !c.IsInt64() || c.Int64() >= 64 {
+		return 0, false
+	}
+	return uint(c.Int64()), true
+}
+
+// staticUB is a syntactic upper bound (inclusive) of an unsigned expression, or nil.
+func staticUB(v ssa.Value) *big.Int {
+	switch x := v.(type) {
+	case *ssa.Const:
+		if c, ok := constOf(x); ok && c.Sign() >= 0 {
+			return c
+		}
+	case *ssa.Convert:
+		var inner *big.Int
+		if isUnsignedInt(x.X.Type()) {
+			inner = staticUB(x.X)
+		}
+		if !isUnsignedInt(x.Type()) {
+			return nil
+		}
+		_, hi, _ := intRange(x.Type())
+		if inner != nil && inner.Cmp(hi) < 0 {
+			return inner
+		}
+		return hi
+	case *ssa.BinOp:
+		switch x.Op {
+		case token.SHL:
+			if k, ok := shlConst(x); ok {
+				if u := staticUB(x.X); u != nil {
+					r := new(big.Int).Lsh(u, k)
+					if _, hi, ok := intRange(x.Type()); ok && r.Cmp(hi) > 0 {
+						return hi
+					}
+					return r
+				}
+			}
+		case token.OR:
+			a, b := staticUB(x.X), staticUB(x.Y)
+			if a != nil && b != nil {
+				m := a
+				if b.Cmp(a) > 0 {
+					m = b
+				}
+				return new(big.Int).Sub(pow2(uint(m.BitLen())), big.NewInt(1))
+			}
+		}
+	}
+	if isUnsignedInt(v.Type()) {
+		_, hi, _ := intRange(v.Type())
+		return hi
+	}
+	return nil
+}
+
 func isFloatType(t types.Type) bool {
 	b, ok := t.Underlying().(*types.Basic)
 	return ok && b.Info()&types.IsFloat != 0
 }
 
 func (fv *FuncVC) uf2(x *ssa.BinOp, f string, a, b Term) {
+	fv.usedSpecs[f] = true
 	r := mk(SInt, f, a, b)
 	c := fv.freshConst("r."+x.Name(), SInt)
 	fv.assume(eq(c, r))
